@@ -30,6 +30,11 @@ for p in props:
         focus = "FOCUS FOR THIS ATTEMPT: prefer a change whose breakage needs a NON-DEFAULT option, configuration field or mode to be in use together with an otherwise ordinary operation sequence - an Option passed to a constructor (cache, subscribe server, manager, client), a field of a Config / Query / Target / SubscriptionList / fake-target configuration that is usually left at its zero value, a particular encoding or subscription mode, a flag of a command - so that everything behaves correctly with the defaults and in the existing tests. First list the options/fields/modes the anchored code supports and pick one that the existing tests barely exercise. The change itself should still be small and plausible."
     if wave >= 'w14':
         focus = "FOCUS FOR THIS ATTEMPT: look at the list of earlier attempts below and note which FILES they touched. Put your change into a file NONE of them touched - a helper or glue package that the anchored code depends on or that wires it into the running system (for example, depending on the property: path/, value/, errlist/, metadata/, latency/, coalesce/, match/, ctree/, connection/, target/, collector/, cmd/gnmi_collector/, cmd/gnmi_cli/, cli/, client/ (cache.go, query.go, notification handling), client/gnmi/, testing/fake/gnmi/ (agent, client), proto helpers) - so that the property breaks through a dependency or through the wiring rather than at the anchored site itself. Any mechanism is fine (interleaving, multi-step history, unusual input, option), as long as ordinary use and the existing tests do not expose it."
+    if wave >= 'w15':
+        if 'schedules' in over or 'fault_sequences' in over:
+            focus = "FOCUS FOR THIS ATTEMPT: the property quantifies over schedules / fault timings. Produce a change whose breakage needs a particular INTERLEAVING of goroutines or a fault / cancellation / time-out landing at a particular moment - something a sequential test of the same operations would never show - and that involves a code path, lock, channel, timer or callback that NONE of the earlier attempts listed below involved (read them carefully; many windows have been used already: pick an unused one, e.g. a different pair of racing operations, a different error path, a second instance of an object, a re-entrant callback, shutdown while starting up). Your demonstration may force the interleaving with hooks, callbacks or channels that exist in the code or in your test's fakes."
+        else:
+            focus = "FOCUS FOR THIS ATTEMPT: produce a change that needs a history of FOUR OR MORE operations to manifest (state left behind by an earlier rejected / no-op / repeated / undone operation, a counter or flag that only goes wrong on the second cycle, something that works once and fails after remove-and-re-add, reset-and-refill, or close-and-reopen), in a mechanism NONE of the earlier attempts listed below used. Read them carefully and pick an unused one."
     prop_text = json.dumps({k: p[k] for k in ('id','title','statement','quantifier','why_tests_cant','anchors') if k in p}, indent=1)
     txt = f"""You are helping to evaluate a verification framework for the Go repository openconfig/gnmi (reference gNMI implementation: client library, CLI, caching collector with a timestamped path-tree cache and a Subscribe server). You have your OWN scratch git worktree of the repository at {wt} (a detached checkout of the current HEAD). Work ONLY inside {wt} and write your results to {out}/ . Never touch /repo or /verif and do not read anything under /verif.
 
